@@ -176,6 +176,7 @@ class Transform:
     @caching.cache_decorator
     def is_identity(self):
         """
-        Flags this transformation being sufficiently close to eye(4).
+        Flags this transformation being exactly eye(4): a matrix that
+        is merely close to it still moves points (and small steps add up).
         """
-        return util.allclose(self.matrix, np.eye(4), 1e-8)
+        return bool(np.array_equal(self.matrix, np.eye(4)))
